@@ -54,6 +54,10 @@ func (v *FnVC) ghostAtCall(site, when string, pnames []string, args []Term) {
 	extra := map[string]Term{}
 	for i, n := range pnames {
 		if i < len(args) {
+			if n == "__call_result" {
+				extra["call_result"] = args[i]
+				continue
+			}
 			extra["arg_"+n] = args[i]
 		}
 	}
